@@ -282,10 +282,15 @@ loop:
 			if len(resultSeries) == 0 && len(r) != 0 {
 				numSeries := 0
 				for i := range r {
-					numSeries += len(r[i].Samples)
+					if len(r[i].Samples) > numSeries {
+						numSeries = len(r[i].Samples)
+					}
 				}
 
-				series = make([]promql.Series, numSeries)
+				// Keep the points collected from earlier batches.
+				if len(series) < numSeries {
+					series = append(series, make([]promql.Series, numSeries-len(series))...)
+				}
 
 				for _, vector := range r {
 					for i := range vector.Samples {
